@@ -235,6 +235,8 @@ def differential(ex, outdir, seed, skip=()):
         fl, eq = [], []
         ok = s not in unions
         for path, ct in leafs:
+            if path.endswith("_vptr") and ct == "ptr":
+                continue   # vtable pointer: left null (memset), never compared
             if ct in POOLS:
                 fl.append("    p->%s = %s ();" % (path, POOLS[ct]))
                 if ct in ("float", "double"):
@@ -253,7 +255,7 @@ def differential(ex, outdir, seed, skip=()):
             drv.append("static int eq_%s (const struct %s *a, const struct %s *b)\n{\n%s\n    return 1;\n}" % (s, s, s, "\n".join(eq)))
         else:
             drv.append("/* struct %s has pointer/opaque members: not testable */" % s)
-    testable_structs = {s for s, leafs in ex.leafs.items() if s not in unions and all(ct in POOLS or ct.startswith("bitfield:") for _, ct in leafs)}
+    testable_structs = {s for s, leafs in ex.leafs.items() if s not in unions and all(ct in POOLS or ct.startswith("bitfield:") or (p_.endswith("_vptr") and ct == "ptr") for p_, ct in leafs)}
     calls = []
     for cn in ex.order:
         if cn in skip:
